@@ -109,6 +109,7 @@ class SimServer:
         self.postcaps_hook = None      # f(conn) -> None | 'silent' | 'close' | 'bye' | 'garbage' | 'no'
         self.data_variation = True     # quoted/literal choice for data strings
         self.status_variation = False  # code/text shape choices for status lines
+        self.text_lit_variation = False  # status text quoted/literal choice only
         self.order_variation = False
         self.validator = None          # f(bytes) -> (ok, text)
         self.auth_hook = None          # override for SASL verdict
@@ -146,7 +147,7 @@ class SimServer:
             if kind == "text":
                 if self._force_lit_text is not None:
                     return self._force_lit_text
-                if not self.status_variation:
+                if not self.status_variation and not self.text_lit_variation:
                     return False
             elif not self.data_variation:
                 return False
